@@ -132,7 +132,7 @@ func c04NonStringRefs(c *Ctx) {
 			other := "file:///c04/ns/other.json"
 			otherDoc := `{"definitions":{"ok":{"type":"integer"},"bad":` + def + `},"parameters":{"bp":{"name":"b","in":"body","schema":` + def + `}},"responses":{"br":{"description":"d","schema":` + def + `}}}`
 			w := &refgraph.World{Root: root, Docs: map[string]wire.V{
-				root: wire.MustParse(`{"swagger":"2.0","info":{"title":"t","version":"1"},"paths":{"/a":{"get":{"parameters":[{"$ref":"other.json#/parameters/bp"}],"responses":{"200":{"$ref":"other.json#/responses/br"}}}}},"definitions":{"top":{"type":"object","properties":{"t":{"$ref":"other.json#/definitions/bad"}}}}}`),
+				root:  wire.MustParse(`{"swagger":"2.0","info":{"title":"t","version":"1"},"paths":{"/a":{"get":{"parameters":[{"$ref":"other.json#/parameters/bp"}],"responses":{"200":{"$ref":"other.json#/responses/br"}}}}},"definitions":{"top":{"type":"object","properties":{"t":{"$ref":"other.json#/definitions/bad"}}}}}`),
 				other: wire.MustParse(otherDoc)}}
 			for oi := 0; oi < 4; oi++ {
 				o := expOpts{Continue: oi&1 == 1, Absolute: oi&2 == 2}
